@@ -250,6 +250,17 @@ def work(arg):
         sc = gen(rng)
         s2 = rng.getrandbits(32)
         ch = dsched.PCTChooser(random.Random(s2), depth=rng.choice([1, 3, 6])) if i % 2 else dsched.RandomChooser(random.Random(s2))
+        if i % 40 == 39:
+            # line-granular preemption, oracle only (DESIGN.md section 4)
+            r = shellrun.run(sc, dsched.RandomChooser(random.Random(s2)), fine=True, fine_seed=s2)
+            viol = []
+            for detail, key in shellrun.ORACLES[pid](r):
+                viol.append({'case': {'scenario': scenario_to_json(r.sc), 'schedule': [c for c, _ in r.taken], 'source': 'fine', 'fine_seed': s2},
+                             'detail': detail, 'key': dict(key), 'kind': 'schedule'})
+            out.append({'fine': True, 'viol': viol, 'status': r.status, 'scenario': scenario_to_json(r.sc), 'schedule': [c for c, _ in r.taken],
+                        'kind': r.sc.kind, 'managed': r.sc.start_managed, 'close': r.sc.app_close, 'gate': bool(r.sc.gate), 'exits': bool(r.exits),
+                        'content': []})
+            continue
         r = shellrun.run(sc, ch)
         out.append(digest(r, pid))
     return out
@@ -326,7 +337,14 @@ def explore(ctx, res, pid):
         k += shard
     with multiprocessing.get_context('fork').Pool(nproc) as pool:
         results = pool.map(work, jobs, chunksize=1)
-    digs = corpus_digests(pid) + [d for out in results for d in out]
+    alld = corpus_digests(pid) + [d for out in results for d in out]
+    for d in alld:
+        if d.get('fine'):
+            res.evaluations += 1
+            res.count('line-granular (oracle only)')
+            for v in d['viol']:
+                res.oracle_violations.append(v)
+    digs = [d for d in alld if not d.get('fine')]
     for d in digs:
         res.evaluations += 1
         res.count(d['kind'])
@@ -478,6 +496,6 @@ def search(ctx, res, pid):
 def replay(ctx, data, pid):
     c = data['case']
     sc = scenario_from_json(c['scenario'])
-    r = shellrun.run(sc, dsched.ListChooser(c['schedule']))
+    r = shellrun.run(sc, dsched.ListChooser(c['schedule']), fine=(c.get('source') == 'fine'), fine_seed=c.get('fine_seed', 0))
     v = shellrun.ORACLES[pid](r)
     return bool(v), 'oracle: %r; written: %r' % (v[:3], shellrun.wire_lines(r)[:8])
